@@ -416,7 +416,11 @@ func (dec *xmlReader) Bitmask(realtag, tag int) (int32, error) {
 		var parsed int64
 		var err error
 		if strings.HasPrefix(part, "0x") {
-			parsed, err = strconv.ParseInt(part[2:], 16, 32)
+			// Unnamed flags are written as unsigned 32 bits hex values (bit 31 included).
+			var uparsed uint64
+			uparsed, err = strconv.ParseUint(part[2:], 16, 32)
+			//nolint:gosec // reinterpreting the 32 bits pattern as a signed mask is intended.
+			parsed = int64(int32(uint32(uparsed)))
 		} else {
 			parsed, err = strconv.ParseInt(part, 10, 32)
 			if err != nil {
